@@ -4,14 +4,14 @@ from . import _histcheck
 
 PROPERTY = 'C06'
 LEVEL = 'exploration'
-RULE = ('per element-content type: core = every sequence of <=3 additions (<=2 when the alphabet exceeds 12; thorough <=3, <=4 for alphabets <=8) and every <=1 addition (thorough <=2) followed by one removal / replacement / forward addition / shortcut / serialisation; long = a valid word of ~300 children followed by replacements / removals at positions >= 257 with serialisations; moved = the <=2-addition and <=1-addition + one operation cores with children that were attached to and removed from another element before; leaf classes = a child offered to every class without content model is refused or fully tracked; halo = seeded hostile histories (mixed, failure-biased, removal-heavy, long runs, shortcut-heavy, guided by valid words). A case is one history; the invariants (both views are permutations of each other and of the shadow model, parents, exactly-once in output) are evaluated after every operation. non-trivial = at least one operation; distinct = distinct operation string')
+RULE = ('per element-content type: core = every sequence of <=3 additions (<=2 when the alphabet exceeds 12; thorough <=3, <=4 for alphabets <=8) and every <=1 addition (thorough <=2) followed by one removal / replacement / forward addition / shortcut / serialisation; long = a valid word of ~300 children followed by replacements / removals at positions >= 257 with serialisations; moved = the <=2-addition and <=1-addition + one operation cores with children that were attached to and removed from another element before; twice = the same child object accepted twice and removed once: views stay permutations of each other, output count agrees; leaf classes = a child offered to every class without content model is refused or fully tracked; halo = seeded hostile histories (mixed, failure-biased, removal-heavy, long runs, shortcut-heavy, guided by valid words). A case is one history; the invariants (both views are permutations of each other and of the shadow model, parents, exactly-once in output) are evaluated after every operation. non-trivial = at least one operation; distinct = distinct operation string')
 ASSUMPTIONS = ['reference DFAs built from /verif/ref/musicxml_4_0.xsd are the schema (self-tested, cross-checked by C03)', 'children are minimal unchecked instances so only the parent level is judged; parents carry their schema-required attributes', 'witnesses are shrunk by delta debugging before classification; beyond a fixed number per pre-signature they are only counted']
 TIMEOUT = {'quick': 900, 'thorough': 5400}
 PROPS = ('C06',)
 
 
 def plan(tier, seed):
-    return [{'mode': 'repotests', 'cost': 3000}, {'mode': 'leafclasses', 'cost': 500}] + \
+    return [{'mode': 'repotests', 'cost': 3000}, {'mode': 'leafclasses', 'cost': 500}, {'mode': 'twice', 'cost': 500}] + \
         [{'mode': 'long', 'type': t, 'cost': 2500} for t in sorted(ref.DFAS) if any(True for _ in genhist.core_long(t))] + \
         [{'mode': 'moved', 'type': t, 'cost': genhist.n_core_additions(t, 2) + genhist.n_core_mixed(t, 1)} for t in sorted(ref.DFAS)] + \
         _histcheck.plan(lambda t: (genhist.n_core_forward_first(t, 2) * 1 + genhist.n_core_additions(t, genhist.nadd_for(t, tier)) + genhist.n_core_mixed(t, 1 if tier == 'quick' else 2) + 400))
@@ -22,6 +22,8 @@ def run_shard(shard, tier, seed):
         return _histcheck.run_repo_tests(PROPERTY)
     if shard.get('mode') == 'leafclasses':
         return run_leafclasses()
+    if shard.get('mode') == 'twice':
+        return run_twice()
     t = shard['type']
     if shard.get('mode') == 'long':
         return _histcheck.run(shard, tier, seed, PROPERTY, [genhist.core_long(t, 300, 2 if tier == 'quick' else 6)], [], PROPS,
@@ -74,7 +76,48 @@ def run_leafclasses():
             'counters': {'leafclass_offers': evals, 'leafclass_offers_refused': refused}}
 
 
+def run_twice():
+    """the same child object offered twice: where the second offer is accepted too (unbounded leaves), a single remove() takes
+    ONE occurrence away: whatever the library makes of such a child otherwise, the two views must stay permutations of each
+    other and the output must show as many children as the views hold (only this part of the invariant is judged here)"""
+    import collections
+    import xml.etree.ElementTree as ET
+    from .. import lib
+    viol = []
+    evals = 0
+    accepted = 0
+    for t in sorted(ref.DFAS):
+        cls = lib.TYPES[t]
+        for s in ref.DFAS[t].alphabet:
+            for how in ('remove', 'dot-none'):
+                e = lib.make(cls, check=True, with_required=True)
+                k = lib.make(lib.child_cls(s))
+                if lib.call(e.add_child, k)[0] == 'exc' or lib.call(e.add_child, k)[0] == 'exc':
+                    continue
+                evals += 1
+                accepted += 1
+                r = lib.call(e.remove, k) if how == 'remove' else lib.call(setattr, e, 'xml_' + s.replace('-', '_'), None)
+                o, u = e.get_children(True), e.get_children(False)
+                bad = None
+                if collections.Counter(map(id, o)) != collections.Counter(map(id, u)):
+                    bad = ('views-differ', {'ordered': [c.name for c in o], 'insertion': [c.name for c in u]})
+                else:
+                    rs = lib.call(e.to_string)
+                    if rs[0] == 'ok' and len(list(ET.fromstring(rs[1]))) != len(o):
+                        bad = ('output-count', {'output': [c.tag for c in ET.fromstring(rs[1])], 'views': [c.name for c in o]})
+                if bad:
+                    viol.append({'sig': {'kind': bad[0], 'mech': 'same-object-added-twice', 'how': how,
+                                         'removal': 'ok' if r[0] == 'ok' else type(r[1]).__name__},
+                                 'case': {'twice': t, 'child': s, 'how': how}, 'detail': bad[1]})
+    return {'evaluations': evals, 'distinct_nontrivial': evals, 'violations': viol, 'samples': [],
+            'counters': {'same_object_accepted_twice': accepted}}
+
+
 def replay_case(rp):
+    if 'twice' in rp['case']:
+        res = run_twice()
+        mine = [x for x in res['violations'] if x['case'] == rp['case']]
+        return {'violated': bool(mine), 'violations': [m['sig'] for m in mine]}
     if 'cls' in rp['case']:
         res = run_leafclasses()
         mine = [x for x in res['violations'] if x['case'] == rp['case']]
